@@ -252,6 +252,57 @@ def schedules():
                  "(%d schedules)" % n, worst is None, detail])
 
 
+def real_interface_after_failure():
+    """the REAL YamlInterface / PickleInterface: a write that fails inside the serializer (a value it cannot represent)
+    leaves the target complete, and the next save through the same FileManager succeeds"""
+    bad = []
+
+    class Unrepresentable:
+        def __reduce__(self):
+            raise TypeError("cannot be serialised")
+
+    for ext in (".yaml", ".bin"):
+        d = tempfile.mkdtemp(prefix="c15r_")
+        try:
+            FileManager.initialized = False
+            FileManager.is_busy = False
+            FileManager.file_interfaces = {}
+            FileManager.init()
+            target = os.path.join(d, "data" + ext)
+            FileManager.save(target, {"v": 1})
+            raised = None
+            try:
+                FileManager.save(target, {"v": Unrepresentable()})
+            except Exception as e:      # noqa
+                raised = type(e).__name__
+            try:
+                after_fail = dict(FileManager.load(target))
+            except Exception as e:      # noqa
+                after_fail = "UNREADABLE (%s)" % type(e).__name__
+            later = None
+            try:
+                FileManager.save(target, {"v": 2})
+                final = dict(FileManager.load(target))
+            except Exception as e:      # noqa
+                later = "%s: %s" % (type(e).__name__, e)
+                final = None
+            if raised is None:
+                bad.append("%s: the unrepresentable value was written without an error" % ext)
+            elif after_fail != {"v": 1}:
+                bad.append("%s: after the failed write the file holds %r" % (ext, after_fail))
+            elif later is not None:
+                bad.append("%s: after one failed write (%s) the NEXT save fails too: %s" % (ext, raised, later))
+            elif final != {"v": 2}:
+                bad.append("%s: the later save stored %r" % (ext, final))
+            elif FileManager.is_busy:
+                bad.append("%s: busy flag stuck" % ext)
+        finally:
+            shutil.rmtree(d, ignore_errors=True)
+    rows.append(["native: with the real YAML / pickle interfaces a write that fails in the serializer leaves the file "
+                 "complete and does not stop later saves", not bad, "all hold" if not bad else "; ".join(bad[:2])])
+
+
 fault_injection()
 schedules()
+real_interface_after_failure()
 print(json.dumps({"rows": rows}))
